@@ -110,10 +110,19 @@ impl Lin {
                 }
             }
             let b_t = prob.wdata();
-            let rs = a_t.svd(true, true);
-            let c = rs.solve(&b_t, T::of(eps)).ok().map(|c| Mat::from_na(&c));
-            let u = rs.u.as_ref().map(Mat::from_na);
-            (c, u)
+            // like the code under test after its repair: bounded iterations, no panicking sort on
+            // NaN (nalgebra's svd() panics or hangs on matrices with an extreme dynamic range)
+            let kdim = a_t.nrows().min(a_t.ncols()).max(1);
+            let conv = T::of(5.0) * num_traits::Float::epsilon();
+            match nalgebra::linalg::SVD::try_new_unordered(a_t, true, true, conv, 1000 * kdim) {
+                Some(mut rs) if rs.singular_values.iter().all(|s| s.f().is_finite()) => {
+                    rs.sort_by_singular_values();
+                    let c = rs.solve(&b_t, T::of(eps)).ok().map(|c| Mat::from_na(&c));
+                    let u = rs.u.as_ref().map(Mat::from_na);
+                    (c, u)
+                }
+                _ => (None, None),
+            }
         };
         Ok(Lin { n: sh.n, m: sh.m, s: sh.s, ut, tiny: T::min_positive_value().f(), eps, w, a, phi, b, svd: sv, delta, sure_kept, maybe_kept, class, c_ref, u_ref })
     }
